@@ -80,7 +80,7 @@ async fn limit_case(ctx: &mut Ctx<'_>, r: &mut Rng, k: Kind, delta: i64, pinned_
             }
         }
     }
-    let cyc = ACycle { limits, safe: true, now: 0, server, shipped: Some(b.root.clone()) };
+    let cyc = ACycle { limits, safe: true, now: 0, server, shipped: Some(b.root.clone()), reads: vec![] };
     let class = format!("limit-{k:?}-{}{}", if unpinned { "cfg" } else { "pin" }, stream.map(|s| format!("-{s}")).unwrap_or_default());
     ctx.emit(&mut world, &class, &[cyc], delta.abs() <= 1 || stream.is_some(), json!({"delta": delta, "size": size})).await;
 }
@@ -98,7 +98,7 @@ async fn chain_case(ctx: &mut Ctx<'_>, n: u64, m: u64, cs: bool) {
         x.msg = msgs.next();
         server.push((AName::RootV(v), AResp::File(AFile::plain(AContent::Root(x)))));
     }
-    let cyc = ACycle { limits: ALimits { max_root_updates: m, ..ALimits::default() }, safe: true, now: 0, server, shipped: Some(b.root.clone()) };
+    let cyc = ACycle { limits: ALimits { max_root_updates: m, ..ALimits::default() }, safe: true, now: 0, server, shipped: Some(b.root.clone()), reads: vec![] };
     ctx.emit(&mut world, "root-chain", &[cyc], n + 1 >= m, json!({"n": n, "max": m})).await;
 }
 
@@ -121,7 +121,7 @@ async fn graph_case(ctx: &mut Ctx<'_>, label: &str, top_to: &[usize], edges: &[(
         }));
     }
     let asm = assemble(&mut world, cs, 1, 1, &top, &roles, pin, &std_online(), &mut msgs);
-    let cyc = ACycle { limits: ALimits::default(), safe: true, now: 0, server: asm.server, shipped: Some(b.root.clone()) };
+    let cyc = ACycle { limits: ALimits::default(), safe: true, now: 0, server: asm.server, shipped: Some(b.root.clone()), reads: vec![] };
     ctx.emit(&mut world, &format!("graph-{label}"), &[cyc], true, json!({"top": top_to, "edges": edges})).await;
 }
 
@@ -145,7 +145,7 @@ async fn legit_case(ctx: &mut Ctx<'_>, r: &mut Rng, cs: bool, pin: Pin) {
         let r1 = file_len(&mut world, &server, |n| matches!(n, AName::Role(1, _)));
         limits.max_targets_size = t.max(r0).max(r1);
     }
-    let cyc = ACycle { limits, safe: true, now: 0, server, shipped: Some(b.root.clone()) };
+    let cyc = ACycle { limits, safe: true, now: 0, server, shipped: Some(b.root.clone()), reads: vec![] };
     ctx.emit(&mut world, "legit-at-bounds", &[cyc], true, json!({"pin_len": pin.length})).await;
 }
 
